@@ -65,11 +65,17 @@ func (f *FileIO) Sent(file sts.Sent) {
 }
 
 func (f *FileIO) wasWritten(relPath, hash string, after time.Time, before time.Time) bool {
-	strings := []string{relPath}
-	if hash != "" {
-		strings = append(strings, fmt.Sprintf(":%s:", hash))
-	}
-	return f.logger.search(strings, after, before)
+	// A record starts with the name followed by the field separator, so match
+	// the name as a whole field (not as a substring of other names or fields)
+	// and look at every record of that name (not only the first one found).
+	prefix := relPath + ":"
+	hashField := fmt.Sprintf(":%s:", hash)
+	return f.logger.eachLine(func(line string) bool {
+		if !strings.HasPrefix(line, prefix) {
+			return false
+		}
+		return hash == "" || strings.Contains(line[len(relPath):], hashField)
+	}, after, before)
 }
 
 // WasSent tries to find the path specified between the times specified
